@@ -73,6 +73,41 @@ struct Gate {
 
 type IFut = Pin<Box<dyn Future<Output = Result<usize, InteractError>>>>;
 
+// A job that finds the mutex poisoned panics in `lock().unwrap()`; while that panic is being processed
+// the guard inside the PoisonError is alive, i.e. the mutex is poisoned AND held.  The panic hook is the
+// one place where that state can be looked at deterministically: it asks the wrapper of the run in
+// progress whether it reports poisoning (it must: "from then on").
+// (several runs execute at once: the runtime's threads are named after their run)
+struct Probe {
+    w: Option<std::sync::Weak<SyncWrapper<Val>>>,
+    samples: usize,
+    not_poisoned: usize,
+}
+static PROBES: Mutex<BTreeMap<String, Probe>> = Mutex::new(BTreeMap::new());
+
+pub fn install_probe_hook() {
+    let prev = std::panic::take_hook();
+    std::panic::set_hook(Box::new(move |info| {
+        let msg = info.payload().downcast_ref::<String>().cloned().or_else(|| info.payload().downcast_ref::<&str>().map(|s| s.to_string())).unwrap_or_default();
+        if msg.contains("PoisonError") {
+            let key = std::thread::current().name().unwrap_or("").to_string();
+            let w = PROBES.lock().ok().and_then(|g| g.get(&key).and_then(|p| p.w.as_ref().and_then(|w| w.upgrade())));
+            if let Some(w) = w {
+                let reported = w.is_mutex_poisoned();
+                if let Ok(mut g) = PROBES.lock() {
+                    if let Some(p) = g.get_mut(&key) {
+                        p.samples += 1;
+                        if !reported {
+                            p.not_poisoned += 1;
+                        }
+                    }
+                }
+            }
+        }
+        prev(info)
+    }));
+}
+
 const SETTLE: Duration = Duration::from_millis(1500);
 
 struct Sw {
@@ -85,6 +120,7 @@ struct Sw {
     owner: ThreadId,
     async_threads: Vec<ThreadId>,
     paniced: bool,
+    key: String,
 }
 
 async fn poll_once(f: &mut IFut) -> Option<Result<usize, InteractError>> {
@@ -180,6 +216,8 @@ impl Sw {
             "dtor_on_async": l.dtor.iter().any(on_async),
             "dtor": l.dtor.len(), "dtor_during_closure": l.dtor_during_closure, "closure_after_dtor": l.closure_after_dtor,
             "paniced": l.finished.values().any(|p| *p), "alive": self.w.is_some(),
+            "busy_samples": PROBES.lock().ok().and_then(|g| g.get(&self.key).map(|p| p.samples)).unwrap_or(0),
+            "busy_not_poisoned": PROBES.lock().ok().and_then(|g| g.get(&self.key).map(|p| p.not_poisoned)).unwrap_or(0),
             "poisoned": self.w.as_ref().map(|w| w.is_mutex_poisoned()).unwrap_or(false),
             "settled": settled, "expect_settled": expect, "stable": stable,
         })
@@ -190,9 +228,12 @@ impl Sw {
 pub fn run_path(cfg: &SwCfg, path: &PathRec<SwPost>, record: bool) -> (PathResult, Vec<String>) {
     let mut res = PathResult { id: path.id, conform: true, ..Default::default() };
     let mut lines = vec![];
+    let key = format!("swrun{}", path.id);
+    PROBES.lock().unwrap().insert(key.clone(), Probe { w: None, samples: 0, not_poisoned: 0 });
     let rt = tokio::runtime::Builder::new_multi_thread()
         .worker_threads(1)
         .max_blocking_threads(cfg.k)
+        .thread_name(key.clone())
         .enable_all()
         .build()
         .unwrap();
@@ -209,6 +250,7 @@ pub fn run_path(cfg: &SwCfg, path: &PathRec<SwPost>, record: bool) -> (PathResul
         owner,
         async_threads: vec![worker],
         paniced: false,
+        key: key.clone(),
     };
     rt.block_on(async {
         let mut n = 0;
@@ -240,6 +282,9 @@ pub fn run_path(cfg: &SwCfg, path: &PathRec<SwPost>, record: bool) -> (PathResul
                     })
                     .await;
                     sw.w = r.ok().map(Arc::new);
+                    if let Some(p) = PROBES.lock().unwrap().get_mut(&sw.key) {
+                        p.w = sw.w.as_ref().map(Arc::downgrade);
+                    }
                 }
                 "Interact" => {
                     if let Some(w) = sw.w.clone() {
@@ -349,6 +394,7 @@ pub fn run_path(cfg: &SwCfg, path: &PathRec<SwPost>, record: bool) -> (PathResul
         }
     });
     rt.shutdown_timeout(Duration::from_millis(200));
+    PROBES.lock().unwrap().remove(&key);
     let _ = Value::Null;
     (res, lines)
 }
